@@ -350,7 +350,7 @@ RULE = (
 
 def build(tier):
     return CheckSpec(
-        [Sub("scenarios", run_case, strategy=_case, budget={"quick": 3000, "thorough": 60000}, max_wall={"quick": 55, "thorough": 2400})],
+        [Sub("scenarios", run_case, strategy=_case, budget={"quick": 3000, "thorough": 300000}, max_wall={"quick": 55, "thorough": 3600})],
         RULE,
         assumptions=["OS boundary replaced by vlib.simnet; aiocoap.protocol.time is the virtual clock", "Observe values >= 2^24 are not generated (not encodable in the 3-byte option)", "scenarios whose first response is lost to an ICMP error or is unsuccessful yet carries Observe are excluded"],
         selftest=selftest,
